@@ -56,3 +56,24 @@ Theorem C19_request_serialise_failure : forall md5 cfg fs st s id h, fs (100 + i
   internal_sendrq md5 cfg fs st s id h = None.
 Proof. exact internal_sendrq_serialise_failure. Qed.
 Print Assumptions C19_request_serialise_failure.
+
+(* ---- "never corrupts state": whatever allocations fail, in whatever handler, the request state stays balanced.
+   The failure oracle is an argument of every step of a history (HRecv/HReply/HWriter carry their own fs), so this is
+   C17's invariant read for failures: after any history with any pattern of failed allocations every object's counter
+   still equals the number of places that refer to it -- a failed allocation loses no reference and releases nothing
+   that is still referred to. *)
+From RSP Require Import BaseLemmas Keeps_proofs Refs_proofs Tight_proofs Reg_proofs Balance_proofs.
+Local Open Scope N_scope.
+
+Theorem C19_state_stays_balanced : forall md5, (forall x, length (md5 x) = 16%nat) -> (forall x, wf_bytes (md5 x) = true) ->
+  forall rx cfg nclients nservers st op, cfg_ok cfg nservers -> op_ok nclients nservers op ->
+  Bal nclients nservers st -> Bal nclients nservers (hstep md5 rx cfg st op).
+Proof. intros md5 L W rx cfg nc ns st op Hc. exact (Bal_hstep md5 L W rx cfg nc ns Hc st op). Qed.
+Print Assumptions C19_state_stays_balanced.
+
+(* the unconditional half for the request handler alone: with any failure oracle, radsrv gives up the reference it was
+   entered with exactly once and releases nothing that a cache, queue or slot still refers to *)
+Theorem C19_radsrv_never_double_releases : forall md5 rx cfg fs st h c now rnd e,
+  safe st (add1 e h) -> safe (fst (radsrv md5 rx cfg fs st h c now rnd)) e.
+Proof. exact safe_radsrv. Qed.
+Print Assumptions C19_radsrv_never_double_releases.
